@@ -251,14 +251,13 @@ theorem shiftNode_rel (env : Env) (a : Act) (ha : isShift a = true) (c0 c1 : NS)
       have h0ty' : c0'.ty = .u ka := by rw [hl_ty, h0ty]
       have h0rv' : c0'.rv = .c (.int v) := by rw [hl_rv, h0rv]
       have hf := foldShiftY_const a ha (.u ka) v c1'.rv q hv1 hc.1 hc100
-      have hnty : nodeTyY F0 none true c0' c1' = .u ka := by
-        simp [nodeTyY, stayUntypedY, binTypeY, h0ty', Ty.untyped]
+      have hisint : (Ty.u ka).isInt = true := by rcases hka with rfl | rfl <;> rfl
       have hce : constExprY F0 a false c0' c1' = .ok () := by
         simp [constExprY, h0rv', isConstRV, hsa]
       have hY : shiftNodeY F0 env none a c0 c1 =
           if bitLen (sh a v q.toNat) > 512 then .reject
           else .ok { rv := .c (.int (sh a v q.toNat)), ty := .u ka, inner := c0'.loose || c1'.loose } := by
-        simp only [shiftNodeY, hchk, bind_ok, h0ty', Ty.untyped, Bool.not_true, Bool.false_eq_true, if_false, hnty,
+        simp only [shiftNodeY, hchk, bind_ok, h0ty', Ty.untyped, Bool.not_true, Bool.false_eq_true, if_false, hisint,
           F0_chk, Expected.C03.checkFacts, if_true, hce, h0rv', hf, constOverflowY_c]
         split <;> simp [fixUntypedY, Ty.untyped, isSetRV]
       rw [hY]
